@@ -91,10 +91,7 @@ where
 {
     let circuits: Vec<GenCircuit<P>> =
         witnesses.iter().map(|w| GenCircuit::new(spec.clone(), Some(w.clone()))).collect();
-    let inst: Vec<Vec<Vec<Fq>>> = witnesses
-        .iter()
-        .map(|w| w.instance.iter().map(|c| c.iter().map(|x| x.0).collect()).collect())
-        .collect();
+    let inst: Vec<Vec<Vec<Fq>>> = witnesses.iter().map(|w| w.effective_instance()).collect();
     let inst_refs: Vec<Vec<&[Fq]>> =
         inst.iter().map(|i| i.iter().map(|c| c.as_slice()).collect()).collect();
     let inst_refs2: Vec<&[&[Fq]]> = inst_refs.iter().map(|i| i.as_slice()).collect();
@@ -143,7 +140,7 @@ pub struct Statement {
 /// instance columns committed).
 pub fn statement(vk: &Vk, k: u32, w: &Witness, nb_committed: usize) -> Statement {
     let params = fixtures::srs(k);
-    let cols: Vec<Vec<Fq>> = w.instance.iter().map(|c| c.iter().map(|x| x.0).collect()).collect();
+    let cols: Vec<Vec<Fq>> = w.effective_instance();
     let committed = cols[..nb_committed]
         .iter()
         .map(|c| {
@@ -203,7 +200,7 @@ pub fn verify(
 
 /// The development-time constraint checker on the same circuit and assignment.
 pub fn mock(spec: &Spec, w: &Witness) -> Result<(), Vec<VerifyFailure>> {
-    let inst: Vec<Vec<Fq>> = w.instance.iter().map(|c| c.iter().map(|x| x.0).collect()).collect();
+    let inst: Vec<Vec<Fq>> = w.effective_instance();
     let r = if spec.v1 {
         MockProver::run(spec.k, &GenCircuit::<V1>::new(spec.clone(), Some(w.clone())), inst)
     } else {
